@@ -19,6 +19,9 @@ import core
 import run as runmod
 
 
+QUERY_OPS = {"nbrs", "flinks", "bft", "dftr", "dfti", "bfs", "dfsr", "dfsi", "plain", "puml", "pyvis", "dumps"}
+
+
 class Stats:
     def __init__(self):
         self.evaluations = 0          # answer lines compared real vs model
@@ -36,21 +39,22 @@ class Stats:
         n = len(script)
         b = "%d-%d" % ((n // 10) * 10, (n // 10) * 10 + 9)
         self.sizes[b] = self.sizes.get(b, 0) + 1
-        last_obs = None
+        h = 0
         for line, out in zip(script, outs):
             w = line.split()[0] if line else ""
-            if w in ("obs", "reset"):
-                if w == "obs":
-                    last_obs = out
+            if w == "reset":
+                h = 0
+                continue
+            if w == "obs":
                 continue
             self.ops[w] = self.ops.get(w, 0) + 1
             if out.startswith("err "):
                 self.errors[out[4:]] = self.errors.get(out[4:], 0) + 1
-            # non-trivial: an op evaluated in a non-empty world
-            if last_obs is not None and "L0" in last_obs or w in ("bft", "dftr", "dfti", "bfs", "dfsr", "dfsi"):
-                self.distinct.add(hash((last_obs, line, out)))
-            elif last_obs is not None:
-                self.distinct.add(hash((last_obs, line, out)))
+            # distinct = (history so far, operation, answer); non-trivial = evaluated in a non-empty world
+            if h != 0:
+                self.distinct.add(hash((h, line, out)))
+            if w not in QUERY_OPS:
+                h = hash((h, line, out))
         if len(self.samples) < 3 or (self.scripts % 997 == 0 and len(self.samples) < 8):
             self.samples.append({"script": script[:40], "real_answers": outs[:40]})
 
@@ -107,6 +111,10 @@ class Check:
     def oracle(self, real, line, answer, pre):
         """direct oracle on the real objects after `line` was answered `answer`; None or a message"""
         return None
+
+    def extra_violations(self, stats):
+        """violations found by parts of the check that do not go through the line protocol"""
+        return []
 
     def search(self, tier, rng, real, divergence):
         """extra search for a failing input around a divergence; yields (scripts, real_outs)"""
@@ -220,6 +228,7 @@ def main_check(check, tier, seed, replay=None):
                 run_scripts_with_oracle(check, real, [(sc, outs)], stats, violations)
         else:
             run_scripts_with_oracle(check, real, check.batches(tier, rng, real), stats, violations)
+            violations += check.extra_violations(stats)
         # 5 classify
         final = []
         corr = [v for v in violations if v.kind == "correspondence"]
